@@ -33,7 +33,7 @@ MCRoots3 == (67 :> <<nS, nM>>) @@ (68 :> <<nS, nM, nA>>)
 
 Elems9  == {D2, D1, <<>>, nA, nB, nF, eAsp, eDDsp, eDsp}
 Elems10 == Elems9 \cup {eLa}
-Elems6  == {D2, nA, nF, nN, eDDsp, eAsp}
+Elems4  == {D2, nA, nN, eDDsp}
 CONSTANTS Elems, Prefixes
 
 Pre0 == {<<>>}
@@ -67,7 +67,8 @@ Next == \/ \E s \in StmtSet \ {"NAME"}, pre \in Prefixes, abs \in BOOLEAN, es \i
 Spec == Init /\ [][Next]_vars
 
 View == st
-Bound == ~Dynamic \/ Cardinality(st.fs.dirs) + Cardinality(st.fs.files) <= MaxNodes
+Nodes == Cardinality(st.fs.dirs) + Cardinality(st.fs.files)
+Bound == ~Dynamic \/ (Nodes <= MaxNodes /\ Nodes >= MaxNodes - 3)
 
 \* the property
 TouchedInside == TouchedOK(last.r.touched)
